@@ -235,6 +235,9 @@ def cons_solve_cases(rnd, tier):
                 break
             i0, i1 = integral(m, f0.data[q]), integral(m, f1.data[q])
             scale = sum((F(float(v)) * abs(F(float(x))) for v, x in zip(m.vol(), f0.data[q])), F(0))
+            # (an unstable combination -- gear at CFL 100 with a limiter behind the cached "linear" Jacobian -- grows by 1e5 and still
+            # conserves: round-off is that of the magnitudes the run went through, so the final magnitude counts too)
+            scale = max(scale, sum((F(float(v)) * abs(F(float(x))) for v, x in zip(m.vol(), f1.data[q])), F(0)))
             if kind not in ("convection", "burgers"):
                 scale = max(scale, sum((F(float(v)) * abs(F(float(x))) for v, x in zip(m.vol(), f0.data[-1])), F(0)))
             if implicit:
@@ -961,6 +964,12 @@ def uniform_cases(rnd, tier):
                 if c % 2 == 0:
                     W[1] = 0.0          # a nozzle at rest is preserved for ANY section law
                     mkw["section"] = rnd.choice([lambda x: 1.0 + 0.5 * x, lambda x: 2.0 - np.sin(3 * x) ** 2, lambda x: np.exp(-x)])
+                    # a section law is admissible on a mesh when it stays positive and finite there (exp(-x) on a mesh of
+                    # extent 4e6 underflows to a zero section; 1 + x/2 on a mesh starting at -7.3 is negative)
+                    with np.errstate(all="ignore"):
+                        sv = np.asarray(mkw["section"](np.asarray(m.xf, dtype=float)), dtype=float)
+                    if not (np.all(np.isfinite(sv)) and np.min(sv) > 1e-3 * np.max(sv) and np.min(sv) > 0):
+                        mkw["section"] = lambda x: 2.0 - np.sin(3 * x) ** 2
                 else:
                     mkw["section"] = lambda x: 3.0 + 0.0 * x
         model = make_model(kind, rnd, **mkw)
